@@ -42,6 +42,15 @@ def run(tier):
         if thorough:
             configs += [("cxx-nodebug", {"debug": False}, []), ("cxx-cfi-nodebug", {"F_CFI": True, "debug": False}, [])]
         configs = [(n, o, a, K.fortran_cases(), "derived") for n, o, a in configs]
+        # F_CFI is an option like any other: switched on for single functions (every second one) beside functions
+        # that use the bufferify form; the Fortran API and its behaviour are the same
+        mixed = []
+        for k_, x_ in enumerate(K.fortran_cases()):
+            x_ = dict(x_)
+            if k_ % 2 == 0:
+                x_["yaml_extra"] = dict(x_.get("yaml_extra") or {}, options={"F_CFI": True})
+            mixed.append(x_)
+        configs.append(("cxx-mixed-cfi", {}, [], mixed, True))
         # libraries out of the TLA+ grammar LibGen (specs/LibGen.tla), restricted to the rows the Fortran driver knows
         libs, rl = libgen.sample_libraries(400 if thorough else 12, common.seed())
         c.add_tlc(rl, "LibGen/simulate")
